@@ -3,7 +3,7 @@
 import json, os, shutil, sys
 prop, m, caught = sys.argv[1], sys.argv[2], sys.argv[3]
 # wave-2 changes are named w2mN and live in /tmp/mutants_<prop>_w2/mN
-src = f"/tmp/mutants_{prop}_{m[:2]}/{m[2:]}" if m[:2] in ("w2", "w3", "w4", "w5", "w6", "w7") else f"/tmp/mutants_{prop}/{m}"
+src = f"/tmp/mutants_{prop}_{m[:2]}/{m[2:]}" if m[:2] in ("w2", "w3", "w4", "w5", "w6", "w7", "w8") else f"/tmp/mutants_{prop}/{m}"
 dst = f"/verif/seeded/{prop}-{m}"
 os.makedirs(dst, exist_ok=True)
 for f in ("patch.diff", "demo.py"):
